@@ -14,7 +14,19 @@ def main():
     from pbt.hashseed import send, recv
     inp, out = sys.stdin.buffer, sys.stdout.buffer
     sys.stdout = sys.stderr    # nothing but protocol frames on the real stdout
-    send(out, {'hashseed': os.environ.get('PYTHONHASHSEED'), 'flags': sys.flags.hash_randomization})
+    preimported = []
+    if os.environ.get('PBT_CHILD_PREIMPORT'):
+        import importlib
+        import pkgutil
+        import playback
+        for m in pkgutil.walk_packages(playback.__path__, 'playback.'):
+            try:
+                importlib.import_module(m.name)
+                preimported.append(m.name)
+            except ImportError:
+                pass
+    send(out, {'hashseed': os.environ.get('PYTHONHASHSEED'), 'flags': sys.flags.hash_randomization,
+               'preimported': preimported})
     from pbt import progsim as PS
     from playback.tape_recorder import TapeRecorder
     from playback.tape_cassettes.file_based.file_based_tape_cassette import FileBasedTapeCassette
